@@ -15,7 +15,7 @@ def make_runs(run):
     k = 0
     while len(runs) < n and k < 30 * n:
         mode = MODES[k % len(MODES)]
-        p = RG.make_problem(run.rng, k, repl_mode=mode, flavor=["mixed", "corners", "antiparallel", "stretched"][(k // 6) % 4], with_terms=(k % 2 == 0), cellkind=({2: "rot-ortho", 9: "mono-xz"}.get(k % 13)))
+        p = RG.make_problem(run.rng, k, repl_mode=mode, flavor=["mixed", "corners", "antiparallel", "stretched"][(k // 6) % 4], with_terms=(k % 2 == 0), cellkind=({2: "rot-ortho", 5: "upper", 9: "mono-xz", 11: "upper"}.get(k % 13)))
         k += 1
         if p is None:
             continue
